@@ -188,7 +188,7 @@ def family(tier):
     q = tier == "quick"
     base = list(F.undirected([1, 2, 3], 3)) + list(F.undirected([1, 2, 3, 4], 2, min_edges=1))
     if not q:
-        base = list(F.undirected([1, 2, 3, 4], 3)) + list(F.undirected([1, 2, 3, 4, 5], 2, min_edges=2)) + \
+        base = list(F.undirected([1, 2, 3, 4], 3)) + list(F.undirected([1, 2, 3, 4, 5], 2, min_edges=2)) + [s for s in F.undirected([1, 2, 3, 4, 5], 3, isolated=False, min_edges=3) if 5 in s["nodes"]] + \
             list(F.undirected([1, 2, 3, 4, 5, 6], 3, isolated=False, multi=False, lo=2, hi=3, min_edges=3))
     items = []
     for k, s in enumerate(base):
